@@ -50,13 +50,17 @@ template <typename CFG> class dead_code_elimination : public transform<CFG> {
     }
   }
 
-  bool included_defs(const live_t &live, const varset_domain_t &vars) const {
+  // Return true if s defines at least one variable and none of the
+  // variables defined by s is in vars.
+  bool all_defs_dead(const live_t &live, const varset_domain_t &vars) const {
+    bool has_defs = false;
     for (auto it=live.defs_begin(), et=live.defs_end(); it!=et; ++it) {
-      if (!(varset_domain_t(*it) <= vars)) {
+      has_defs = true;
+      if (varset_domain_t(*it) <= vars) {
 	return false;
       }
     }
-    return true;
+    return has_defs;
   }
   
 public:
@@ -80,8 +84,8 @@ public:
              s_it != s_et; ++s_it) {
           statement_t &s = *s_it;
           auto const& s_live_vars = s.get_live();
-          // if DEF(s) \not\subseteq out_live then remove s
-          if (!keep_conservatively(s) && !(included_defs(s_live_vars, out_live))) {
+          // if DEF(s) is not empty and DEF(s) \cap out_live is empty then remove s
+          if (!keep_conservatively(s) && all_defs_dead(s_live_vars, out_live)) {
 	    // mark s to be removed
 	    change = true;
 	    apply_dce = true;
